@@ -334,25 +334,26 @@ def deduction_obligations(ck, rule_prefix=''):
     nb = next((f for f in ch.body if isinstance(f, ast.FunctionDef) and f.name == 'number_of_counts_by'), None)
     ck.need(nb is not None, 'CountingHandler.number_of_counts_by vanished')
     ck.analysed(mod, nb)
-    adds = stmts_with_env(nb, lambda s: isinstance(s, ast.AugAssign) and isinstance(s.op, ast.Add))
-    ck.need(len(adds) == 1, 'number_of_counts_by: accumulation site not found')
-    cond = adds[0][1]
-    names = {}
-    for k in flow.atoms_of(cond):
-        t = ' '.join(map(str, k))
-        if k[0] == 'Is' and 'level' in t and 'None' in t:
-            names[k] = 'LN'
-        elif k[0] == 'Gt' and k[1] == 'level' and k[2] == 'lvl':
-            names[k] = 'BELOW'
-        elif k[0] == 'Is' and 'type' in t and 'None' in t:
-            names[k] = 'TN'
-        elif k[0] == 'Eq' and 'type' in t:
-            names[k] = 'TEQ'
-    f = flow.rename(cond, names)
-    want = flow.parse_formula('(LN or not BELOW) and (TN or TEQ)')
-    eq, cex, rows = flow.equivalent(f, want)
-    ck.ob('DT-count-level', mod.loc(adds[0][0]), eq and set(names.values()) >= {'LN', 'BELOW'},
-          'a record is counted iff its level is not below the requested one (and its type matches when a type is given): {} rows'.format(rows),
+    # interpreted: a table of records at three levels, every requested level (also between and beyond them) and every requested type
+    from .. import interp as _interp
+    params_ = [a_.arg for a_ in nb.args.args[1:]] + [a_.arg for a_ in nb.args.kwonlyargs]
+    table_ = {10: {'a': 1, 'b': 2}, 20: {'a': 4}, 30: {'b': 8, 'c': 16}}
+    cases = 0
+    okc = set(params_) >= {'level', 'type'}
+    detail = ''
+    if okc:
+        try:
+            for lvl_ in (None, 5, 10, 20, 25, 30, 40):
+                for typ_ in (None, 'a', 'b', 'zz'):
+                    got = _interp.call(nb.body, {'self.counts': {k_: dict(v_) for k_, v_ in table_.items()}, 'level': lvl_, 'type': typ_})
+                    want_ = sum(n_ for l_, tc_ in table_.items() if lvl_ is None or l_ >= lvl_ for t_, n_ in tc_.items() if typ_ is None or t_ == typ_)
+                    cases += 1
+                    if got != want_:
+                        okc, detail = False, ' -- level={} type={}: counted {}, should be {}'.format(lvl_, typ_, got, want_)
+        except (_interp.Unsupported, KeyError, TypeError) as err:
+            okc, detail = False, ' -- outside the interpretable fragment: {}'.format(err)
+    ck.ob('DT-count-level', mod.loc(nb), okc,
+          'a record is counted iff its level is not below the requested one (and its type matches when a type is given): {} (level, type) cases interpreted{}'.format(cases, detail),
           key='DT-count-level')
     hd = next((f_ for f_ in ch.body if isinstance(f_, ast.FunctionDef) and f_.name == 'handle'), None)
     ck.need(hd is not None, 'CountingHandler.handle vanished')
